@@ -16,6 +16,7 @@
   finite-difference Jacobian within tolerance.  The Radau Newton iteration itself is not modelled.
 -/
 import IvpModel.Props.C17
+import IvpModel.Proofs.RadauNumLemmas
 
 namespace Mat
 noncomputable section
@@ -101,3 +102,12 @@ theorem c15_storage_independence {A B : Mat K} (ha : WF A) (hb : WF B) (hn : A.n
 
 end
 end Mat
+
+/-- Radau's mass products (Newton right-hand side and error estimate) are the dense matrix–vector products `±Σ_j M_ij v_j`
+    over **all** columns, of the matrix read entry by entry — whatever storage holds it (`Model/RadauNum.lean`; X-radaunum
+    runs the solver with Identity / Full / Banded storages of the same matrix against this one dense model) -/
+theorem c15_radau_mass_products {K : Type} [Field K] [LinearOrder K] [IsStrictOrderedRing K] [SqrtPow K]
+    (L : RadauNum.NLits K) (hz : L.zero = 0) (n : Nat) (mass v : Array K) (i : Nat) :
+    RadauNum.massDot L n mass v i = ((List.range n).map fun j => RadauNum.g mass (i * n + j) * RadauNum.g v j).sum ∧
+    RadauNum.massDotNeg L n mass v i = -((List.range n).map fun j => RadauNum.g mass (i * n + j) * RadauNum.g v j).sum :=
+  ⟨RadauNum.massDot_spec L hz n mass v i, RadauNum.massDotNeg_spec L hz n mass v i⟩
